@@ -85,6 +85,15 @@ def configs(ctx):
         p = dict(hosts=hosts, timeout=to, spec=spec, spec_delay=delay, paged=True, kinds=['rows_more', 'overloaded'],
                  decisions=['RETRY', 'RETRY_NEXT_HOST'], faults=False, task_window=1, max_pages=1)
         out.append(('h%d-s%d-d%s-t%s' % (hosts, spec, delay, to), p, 6 if ctx.quick else 8))
+    # continuations other than a retry (see checks/c14.py): an application USE whose propagation to the other pools may
+    # never be answered, and a re-prepare of an unknown prepared statement
+    for to in (0.0, 1.0):
+        out.append(('use-t%s' % to, dict(hosts=3, timeout=to, spec=0, use='ks2', hold_use=True, kinds=['rows'],
+                                         use_kinds=['default', 'invalid', 'overloaded'], decisions=['RETRY_NEXT_HOST'],
+                                         faults=True, task_window=1), 5 if ctx.quick else 7))
+    out.append(('prepared-t1.0', dict(hosts=3, timeout=1.0, spec=0, prepared=True, kinds=['rows', 'unprepared', 'overloaded'],
+                                      prepare_kinds=['default', 'invalid'], decisions=['RETRY', 'RETRY_NEXT_HOST'],
+                                      faults=False, task_window=1), 7 if ctx.quick else 9))
     return out
 
 
